@@ -13,10 +13,12 @@ package c09
 import (
 	"context"
 	"crypto/ecdsa"
+	"crypto/ed25519"
 	"crypto/elliptic"
 	"crypto/sha256"
 	"encoding/hex"
 	"encoding/json"
+	"errors"
 	"fmt"
 	"io"
 	"math/big"
@@ -49,8 +51,10 @@ import (
 )
 
 const (
-	nDIDs = 3
-	nKeys = 4 // key i < nDIDs derives DID i; key 3 has no DID of its own
+	nDIDs    = 3
+	nKeys    = 4 // key i < nDIDs derives DID i; key 3 has no DID of its own
+	okpKey   = 4 // document-only key of another key type (OKP / Ed25519): appears in documents, never signs
+	nDocKeys = 5
 )
 
 // ------------------------------------------------------------------ fixed key material
@@ -58,8 +62,8 @@ const (
 var (
 	privs   [nKeys]*ecdsa.PrivateKey
 	pubJWK  [nKeys]jwk.Key
-	pubMap  [nKeys]map[string]any
-	keyFrag [nKeys]string // RFC 7638 thumbprint, base64url: the fragment the Nuts rules demand
+	pubMap  [nDocKeys]map[string]any
+	keyFrag [nDocKeys]string // RFC 7638 thumbprint, base64url: the fragment the Nuts rules demand
 	dids    [nDIDs]did.DID
 	foreign = "did:nuts:VerifForeignDidVerifForeignDidVerifForeign1"
 	t0      = time.Date(2024, 3, 1, 12, 0, 0, 0, time.UTC)
@@ -96,6 +100,20 @@ func initKeys() {
 			}
 			dids[i] = did.MustParseDID("did:nuts:" + tp)
 		}
+	}
+	// the OKP key (Ed25519), derived from the seed like the others
+	{
+		h := sha256.Sum256([]byte(fmt.Sprintf("c09|%s|okp", seed)))
+		pub := ed25519.NewKeyFromSeed(h[:]).Public()
+		k, err := jwk.FromRaw(pub)
+		if err != nil {
+			panic(err)
+		}
+		_ = jwk.AssignKeyID(k)
+		keyFrag[okpKey] = k.KeyID()
+		b, _ := json.Marshal(k)
+		_ = json.Unmarshal(b, &pubMap[okpKey])
+		delete(pubMap[okpKey], "kid")
 	}
 }
 
@@ -157,6 +175,7 @@ type docSpec struct {
 	Deact   bool       `json:"deact,omitempty"`
 	Invalid string      `json:"invalid,omitempty"` // label of the defect the harness built in ("" = none); the model judges the payload, not this label
 	Extra   *extraEntry `json:"extra,omitempty"`
+	Shape   *shapeSpec  `json:"shape,omitempty"` // document-shape alphabet (shape.go): methods embedded in / listed besides the template's
 	Name    string      `json:"name"`
 }
 
@@ -165,7 +184,7 @@ type event struct {
 	Doc     docSpec `json:"doc"`
 	SignKey int     `json:"signKey"`
 	KidDID  int     `json:"kidDID"` // update: kid = DID[KidDID]#thumbprint(key SignKey)
-	Prevs   string  `json:"prevs"`  // latest | old | oldest | unrelated
+	Prevs   string  `json:"prevs"`  // latest | old | oldest | unrelated | target-latest-others-old | target-old-others-latest | target-latest-others-oldest
 	Sigt    string  `json:"sigt"`   // now | backdated
 }
 
@@ -262,6 +281,12 @@ func buildPayload(d docSpec) []byte {
 			doc["verificationMethod"] = vms
 		}
 	}
+	if sh := d.Shape; sh != nil {
+		vms = sh.apply(id, d.DID, vms, rel)
+		if len(vms) > 0 {
+			doc["verificationMethod"] = vms
+		}
+	}
 	for k, v := range rel {
 		if len(v) > 0 {
 			doc[k] = v
@@ -340,6 +365,15 @@ var defects = []string{"vm-no-fragment", "vm-foreign-prefix", "vm-duplicate-id",
 
 // docVariants: every valid template and every defect for target DID i (the defect documents are otherwise valid).
 func docVariants(i int) []docSpec {
+	if variantsCache[i] == nil {
+		variantsCache[i] = buildDocVariants(i)
+	}
+	return variantsCache[i]
+}
+
+var variantsCache [nDIDs][]docSpec
+
+func buildDocVariants(i int) []docSpec {
 	next, third := (i+1)%nDIDs, (i+2)%nDIDs
 	out := []docSpec{docOwn(i), docSvc(i), docAddKey(i, 3), docRotate(i, 3), docAssertOnly(i, 3), docCtrl(i, false, next),
 		docCtrl(i, true, next), docCtrl(i, true, i, next), docCtrl(i, false, next, third), docDeact(i)}
@@ -380,8 +414,13 @@ func docVariants(i int) []docSpec {
 			extra(extraEntry{Kind: "embedded", Rel: rel, IDVar: "own", Frag: fr})
 		}
 	}
+	// the document-shape alphabet (shape.go)
+	out = append(out, shapeVariants(i)...)
 	return out
 }
+
+// mixedPrevs: prevs modes that differ between the target DID and the other DIDs (thorough: one more)
+var mixedPrevs = []string{"target-latest-others-old", "target-old-others-latest"}
 
 // embedRels: relationships in which methods are embedded (quick: three, thorough: all five)
 var embedRels = []string{"capabilityInvocation", "assertionMethod", "authentication"}
@@ -571,7 +610,7 @@ func exactTier(e event, nAcc int) bool {
 	return ok && k == nAcc && off >= 0
 }
 
-func (in *inst) prevs(mode string) ([]hash.SHA256Hash, uint32) {
+func (in *inst) prevs(mode string, target int) ([]hash.SHA256Hash, uint32) {
 	var out []hash.SHA256Hash
 	clock := uint32(0)
 	add := func(x txInfo) {
@@ -588,7 +627,16 @@ func (in *inst) prevs(mode string) ([]hash.SHA256Hash, uint32) {
 		if n == 0 {
 			continue
 		}
-		switch mode {
+		m := mode
+		switch mode { // mixed modes: one mode for the target DID, another for all other DIDs (its controllers among them)
+		case "target-latest-others-old":
+			m = map[bool]string{true: "latest", false: "old"}[d == target]
+		case "target-old-others-latest":
+			m = map[bool]string{true: "old", false: "latest"}[d == target]
+		case "target-latest-others-oldest":
+			m = map[bool]string{true: "latest", false: "oldest"}[d == target]
+		}
+		switch m {
 		case "latest":
 			add(in.accepted[d][n-1])
 		case "old":
@@ -606,7 +654,7 @@ func (in *inst) prevs(mode string) ([]hash.SHA256Hash, uint32) {
 
 // makeTx signs the transaction for e in the current state.
 func (in *inst) makeTx(t *testing.T, e event, payload []byte) dag.Transaction {
-	prevs, clock := in.prevs(e.Prevs)
+	prevs, clock := in.prevs(e.Prevs, e.Doc.DID)
 	sigt := t0.Add(time.Duration(in.nAcc+1) * time.Minute)
 	if e.Sigt == "backdated" {
 		sigt = t0.Add(-time.Hour)
@@ -702,14 +750,18 @@ func (in *inst) signerFor(t int) (int, int, bool) {
 			continue
 		}
 		w := in.m.versions[c][n-1]
-		if c != t && !in.m.active(c, 1) {
+		if in.m.dead(c) || (c != t && !in.m.active(c, 1)) {
 			continue
 		}
-		for _, k := range w.Doc.CapInv {
-			for _, vk := range w.Doc.VMs {
-				if vk == k {
-					return c, k, true
-				}
+		capInv, listed := w.capInv(), w.listed()
+		for _, k := range w.Doc.CapInv { // template order first (keeps the choice of earlier versions of this check)
+			if capInv[k] && listed[k] {
+				return c, k, true
+			}
+		}
+		for k := 0; k < nKeys; k++ {
+			if capInv[k] && listed[k] {
+				return c, k, true
 			}
 		}
 	}
@@ -724,6 +776,16 @@ func (in *inst) building() []event {
 			out = append(out, event{Kind: "create", Doc: docOwn(i), SignKey: i, Prevs: "latest", Sigt: "now"})
 			continue
 		}
+		cur := in.m.versions[i][len(in.m.versions[i])-1].Doc
+		// re-creation: the holder of the original key publishes the DID once more as a creation (embedded key, prevs =
+		// latest of every DID, so also the deactivation transaction of a deactivated DID). Of a deactivated DID also with
+		// a document that lists key 3 (which other DIDs may list too).
+		if (cur.Name != "own" && !in.m.dead(i)) || cur.Deact {
+			out = append(out, event{Kind: "create", Doc: docOwn(i), SignKey: i, Prevs: "latest", Sigt: "now"})
+		}
+		if cur.Deact {
+			out = append(out, event{Kind: "create", Doc: docRotate(i, 3), SignKey: i, Prevs: "latest", Sigt: "now"})
+		}
 		kd, key, ok := in.signerFor(i)
 		if !ok {
 			continue
@@ -732,8 +794,8 @@ func (in *inst) building() []event {
 		docs := []docSpec{docRotate(i, 3), docCtrl(i, false, next), docDeact(i), docOwn(i)}
 		if i == 0 {
 			docs = append(docs, docAddKey(i, 3), docAssertOnly(i, 3), docCtrl(i, true, next), docCtrl(i, true, i, next), docCtrl(i, false, next, third))
+			docs = append(docs, buildingShapes(i)...)
 		}
-		cur := in.m.versions[i][len(in.m.versions[i])-1].Doc
 		for _, d := range docs {
 			if d.Name == cur.Name {
 				continue // no change
@@ -757,7 +819,10 @@ func (in *inst) probes() []event {
 			out = append(out, event{Kind: "create", Doc: d, SignKey: j, Prevs: "latest", Sigt: "now"})
 		}
 		for _, d := range docVariants(i) {
-			if d.Invalid != "" || d.Extra != nil {
+			if d.Shape != nil && !shapeFull && len(in.m.versions[i]) > 0 {
+				continue // quick: shape documents as creations of DIDs that do not exist yet; thorough: as repeated creations too
+			}
+			if d.Invalid != "" || d.Extra != nil || d.Shape != nil {
 				out = append(out, event{Kind: "create", Doc: d, SignKey: i, Prevs: "latest", Sigt: "now"})
 			}
 		}
@@ -770,6 +835,11 @@ func (in *inst) probes() []event {
 					for _, st := range []string{"now", "backdated"} {
 						out = append(out, event{Kind: "update", Doc: docAddKey(i, j), SignKey: j, KidDID: kd, Prevs: pm, Sigt: st})
 					}
+				}
+				// mixed prevs: the latest version of the target with an older (e.g. pre-deactivation) version of every other
+				// DID, and the other way round
+				for _, pm := range mixedPrevs {
+					out = append(out, event{Kind: "update", Doc: docAddKey(i, j), SignKey: j, KidDID: kd, Prevs: pm, Sigt: "now"})
 				}
 			}
 		}
@@ -797,27 +867,42 @@ func (in *inst) probes() []event {
 // startStates builds the structured histories. Every step is an honest building event signed by a model-authorised key.
 func startStates(t *testing.T) []node {
 	type step struct {
-		did int
-		doc docSpec
+		did      int
+		doc      docSpec
+		recreate bool // published as a creation (embedded original key) although the DID exists
 	}
-	c := func(i int) step { return step{i, docOwn(i)} }
+	c := func(i int) step { return step{did: i, doc: docOwn(i)} }
+	re := func(i int, d docSpec) step { return step{did: i, doc: d, recreate: true} }
 	plans := [][]step{
 		// chain 0 -> 1 -> 2, the middle document is controlled but carries its own capabilityInvocation key, tail deactivated
-		{c(0), c(1), c(2), {0, docCtrl(0, false, 1)}, {1, docCtrl(1, true, 2)}, {2, docDeact(2)}},
+		{c(0), c(1), c(2), {did: 0, doc: docCtrl(0, false, 1)}, {did: 1, doc: docCtrl(1, true, 2)}, {did: 2, doc: docDeact(2)}},
 		// the same with an active tail
-		{c(0), c(1), c(2), {0, docCtrl(0, false, 1)}, {1, docCtrl(1, true, 2)}},
+		{c(0), c(1), c(2), {did: 0, doc: docCtrl(0, false, 1)}, {did: 1, doc: docCtrl(1, true, 2)}},
 		// middle document without keys of its own, tail deactivated
-		{c(0), c(1), c(2), {0, docCtrl(0, false, 1)}, {1, docCtrl(1, false, 2)}, {2, docDeact(2)}},
+		{c(0), c(1), c(2), {did: 0, doc: docCtrl(0, false, 1)}, {did: 1, doc: docCtrl(1, false, 2)}, {did: 2, doc: docDeact(2)}},
 		// middle document names itself and the tail, tail deactivated
-		{c(0), c(1), c(2), {0, docCtrl(0, false, 1)}, {1, docCtrl(1, true, 1, 2)}, {2, docDeact(2)}},
+		{c(0), c(1), c(2), {did: 0, doc: docCtrl(0, false, 1)}, {did: 1, doc: docCtrl(1, true, 1, 2)}, {did: 2, doc: docDeact(2)}},
 		// controller rotated to key 3, a third self-controlled document lists key 3 too, controller deactivated LAST
-		{c(0), c(1), c(2), {0, docCtrl(0, false, 1)}, {1, docRotate(1, 3)}, {2, docRotate(2, 3)}, {1, docDeact(1)}},
+		{c(0), c(1), c(2), {did: 0, doc: docCtrl(0, false, 1)}, {did: 1, doc: docRotate(1, 3)}, {did: 2, doc: docRotate(2, 3)}, {did: 1, doc: docDeact(1)}},
 		// directly deactivated controller
-		{c(0), c(1), {0, docCtrl(0, false, 1)}, {1, docDeact(1)}},
+		{c(0), c(1), {did: 0, doc: docCtrl(0, false, 1)}, {did: 1, doc: docDeact(1)}},
 		// two controllers, one deactivated
-		{c(0), c(1), c(2), {0, docCtrl(0, false, 1, 2)}, {1, docDeact(1)}},
+		{c(0), c(1), c(2), {did: 0, doc: docCtrl(0, false, 1, 2)}, {did: 1, doc: docDeact(1)}},
 		// cycle 0 -> 1 -> 2 -> 0 in which only the middle document carries a key
-		{c(0), c(1), c(2), {0, docCtrl(0, false, 1)}, {1, docCtrl(1, true, 2)}, {2, docCtrl(2, false, 0)}},
+		{c(0), c(1), c(2), {did: 0, doc: docCtrl(0, false, 1)}, {did: 1, doc: docCtrl(1, true, 2)}, {did: 2, doc: docCtrl(2, false, 0)}},
+		// --- re-creations: a deactivated DID is published once more as a creation by the holder of its original key
+		// deactivated controller re-created with its original document
+		{c(0), c(1), {did: 0, doc: docCtrl(0, false, 1)}, {did: 1, doc: docDeact(1)}, re(1, docOwn(1))},
+		// chain 0 -> 1 -> 2 whose deactivated tail is re-created
+		{c(0), c(1), c(2), {did: 0, doc: docCtrl(0, false, 1)}, {did: 1, doc: docCtrl(1, false, 2)}, {did: 2, doc: docDeact(2)}, re(2, docOwn(2))},
+		// chain whose deactivated MIDDLE controller is re-created with a document that names the active tail and carries a key of its own
+		{c(0), c(1), c(2), {did: 0, doc: docCtrl(0, false, 1)}, {did: 1, doc: docDeact(1)}, re(1, docCtrl(1, true, 2))},
+		// two controllers, the deactivated one re-created
+		{c(0), c(1), c(2), {did: 0, doc: docCtrl(0, false, 1, 2)}, {did: 1, doc: docDeact(1)}, re(1, docOwn(1))},
+		// a deactivated self-controlled DID re-created with a document that lists key 3, which an active DID lists too
+		{c(0), c(1), {did: 1, doc: docAddKey(1, 3)}, {did: 0, doc: docDeact(0)}, re(0, docRotate(0, 3))},
+		// controller re-created BEFORE the hand-over: control is handed to a DID that is already deactivated and re-created
+		{c(0), c(1), {did: 1, doc: docDeact(1)}, re(1, docOwn(1)), {did: 0, doc: docCtrl(0, true, 1)}},
 	}
 	var out []node
 	for pi, plan := range plans {
@@ -825,7 +910,7 @@ func startStates(t *testing.T) []node {
 		var hist []event
 		for si, st := range plan {
 			e := event{Kind: "create", Doc: st.doc, SignKey: st.did, Prevs: "latest", Sigt: "now"}
-			if len(in.m.versions[st.did]) > 0 {
+			if len(in.m.versions[st.did]) > 0 && !st.recreate {
 				kd, key, ok := in.signerFor(st.did)
 				if !ok {
 					t.Fatalf("harness: start state %d step %d: no authorised signer", pi, si)
@@ -870,6 +955,12 @@ func signerClass(m *model, e event) string {
 			}
 		}
 		return false
+	}
+	if m.dead(t) {
+		if !v.deactivated() && v.capInv()[e.SignKey] {
+			return "key-listed-by-the-re-created-content-of-the-deactivated-document-itself"
+		}
+		return "deactivated-document-itself"
 	}
 	selfControlled := len(v.Doc.Ctrl) == 0 || inList(v.Doc.Ctrl, t)
 	switch {
@@ -941,6 +1032,10 @@ func judge(r *ev.Run, in *inst, hist []event, e event, accepted bool, err error,
 	switch {
 	case accepted && !modelAccepts:
 		switch {
+		case !wf && e.Doc.Shape != nil:
+			r.Violation("C09|accepted-malformed|method-shape|"+e.Doc.Shape.class(e.Doc.DID),
+				fmt.Sprintf("%s is accepted although the document is not well-formed: %s. Shape: %s on a document that lists its own key%s (history of %d events)",
+					e, why, e.Doc.Shape.label(e.Doc.DID), map[bool]string{true: " for assertion only", false: " and references it from capabilityInvocation"}[len(e.Doc.CapInv) == 0], len(hist)), rcase)
 		case !wf && e.Doc.Extra != nil && e.Doc.Extra.IDVar != "own":
 			x := e.Doc.Extra
 			kind := map[string]string{"vm": "verificationMethod", "svc": "service", "embedded": "embedded-method"}[x.Kind]
@@ -976,6 +1071,11 @@ func judge(r *ev.Run, in *inst, hist []event, e event, accepted bool, err error,
 			r.Violation("C09|update|accepted-unauthorised|any-prevs|"+signerClass(m, e),
 				fmt.Sprintf("%s is accepted although the key was never a capabilityInvocation key of the DID or of any DID it ever named as controller (%s)", e, signerClass(m, e)), rcase)
 		}
+	case accepted && e.Kind == "update" && m.dead(e.Doc.DID):
+		// inside the statement ("the version it succeeds"): a deactivated, re-created document gets a further version
+		// through a key that its re-created content authorises; checkStored demands that the DID stays deactivated
+		r.Observation("update-of-a-deactivated-re-created-document-accepted-by-a-key-its-content-authorises (the DID stays deactivated)|"+signerClass(m, e),
+			map[string]any{"event": e.String(), "history": histKey(hist)})
 	case accepted && e.Kind == "update" && !tier2 && !m.acceptUpdateTier2(e):
 		// inside the statement ("the version it succeeds"): known observation, never judged
 		kind := "accepted-naming-an-older-version-in-prevs|"
@@ -986,6 +1086,9 @@ func judge(r *ev.Run, in *inst, hist []event, e event, accepted bool, err error,
 			"note": "the latest-version model refuses this signer; the update succeeds an older version and is merged as a parallel branch"})
 	case accepted && e.Kind == "create" && len(m.versions[e.Doc.DID]) > 0:
 		kind := "repeated-creation-by-the-original-key-merged-as-parallel-branch"
+		if m.dead(e.Doc.DID) {
+			kind = "repeated-creation-of-a-deactivated-document-by-the-original-key-accepted (the DID stays deactivated)"
+		}
 		if !m.versions[e.Doc.DID][len(m.versions[e.Doc.DID])-1].capInv()[e.SignKey] {
 			kind += "|key-no-longer-capabilityInvocation-of-latest-version"
 		}
@@ -998,6 +1101,55 @@ func judge(r *ev.Run, in *inst, hist []event, e event, accepted bool, err error,
 			tier = "exact-tier"
 		}
 		r.Observation("refused-although-model-accepts|"+tier+"|"+e.Kind+"|"+errClass(err), map[string]any{"event": e.String(), "history": histKey(hist)})
+	}
+}
+
+// checkStored: invariants of the store after an ACCEPTED event (x = the instance that accepted it, m = the model of the
+// state before the event). (1) every stored version of the target DID - also a version the store merged from parallel
+// branches - keeps "a method id is the thumbprint of the method's own key, no id stands for two keys" for every
+// verification method anywhere in the document; (2) once deactivated, always deactivated: a DID that the history
+// deactivated still resolves as deactivated, whatever was accepted for it afterwards.
+func checkStored(t *testing.T, r *ev.Run, x *inst, m *model, hist []event, e event, tx dag.Transaction) {
+	rcase := map[string]any{"history": hist, "event": e}
+	vs, err := didstore.VerifVersions(x.store, dids[e.Doc.DID])
+	if err != nil {
+		t.Fatalf("harness: versions: %v", err)
+	}
+	for _, v := range vs {
+		b, _ := json.Marshal(v.Document)
+		if where, why := methodsInvariant(b); where != "" {
+			r.Violation("C09|stored-document|method-id-is-not-the-thumbprint-of-its-key|"+where,
+				fmt.Sprintf("after %s was accepted, stored version %d of did%d holds a verification method (%s) whose id does not stand for its key: %s", e, v.Version, e.Doc.DID, where, why), rcase)
+			break
+		}
+	}
+	honest := e.Prevs == "latest" && e.Sigt == "now" // the accepted transaction is the newest one of its DID
+	for d := 0; d < nDIDs; d++ {
+		if !m.dead(d) {
+			continue
+		}
+		if _, _, err := x.store.Resolve(dids[d], nil); !errors.Is(err, resolver.ErrDeactivated) {
+			r.Violation("C09|deactivated-document-resolves-again|after-accepted-"+e.Kind,
+				fmt.Sprintf("did%d was deactivated by the history, but after %s was accepted it resolves again (Resolve: %v)", d, e, err), rcase)
+		}
+		// no key of a deactivated DID resolves at the DID's newest transaction (what the DAG signature verifier and the
+		// ambassador ask when a transaction names that transaction in prevs)
+		var newest hash.SHA256Hash
+		switch {
+		case d == e.Doc.DID && honest:
+			newest = tx.Ref()
+		case d != e.Doc.DID && len(x.accepted[d]) > 0:
+			newest = x.accepted[d][len(x.accepted[d])-1].ref
+		default:
+			continue
+		}
+		for k := 0; k < nKeys; k++ {
+			if _, err := x.keyRes.ResolvePublicKey(vmID(dids[d].String(), k), []hash.SHA256Hash{newest}); err == nil {
+				r.Violation("C09|key-of-deactivated-document-resolves|after-accepted-"+e.Kind,
+					fmt.Sprintf("did%d was deactivated by the history, but after %s was accepted the key resolver answers for did%d#key%d at the newest transaction of did%d", d, e, d, k, d), rcase)
+				break
+			}
+		}
 	}
 }
 
@@ -1028,12 +1180,13 @@ func explore(t *testing.T, r *ev.Run, n node, cnt *counters, probe, expand bool)
 		fp := in.fingerprint(t)
 		res := ""
 		for _, p := range in.probes() {
-			ok, err, _ := in.offer(t, p, false)
+			ok, err, tx := in.offer(t, p, false)
 			cnt.probes++
 			cnt.transitions++
 			r.Eval(histKey(n.hist) + " => " + p.String())
 			judge(r, in, n.hist, p, ok, err, cnt)
 			if ok {
+				checkStored(t, r, in, &in.m, n.hist, p, tx)
 				in.close()
 				in = sn.restore(t)
 				continue
@@ -1067,10 +1220,13 @@ func explore(t *testing.T, r *ev.Run, n node, cnt *counters, probe, expand bool)
 	}
 	for _, b := range in.building() {
 		child := sn.restore(t)
-		ok, err, _ := child.offer(t, b, true)
+		ok, err, tx := child.offer(t, b, true)
 		cnt.transitions++
 		if probe {
 			judge(r, in, n.hist, b, ok, err, cnt)
+			if ok {
+				checkStored(t, r, child, &in.m, n.hist, b, tx)
+			}
 		}
 		if ok {
 			succ = append(succ, node{hist: append(append([]event{}, n.hist...), b)})
@@ -1092,6 +1248,9 @@ func TestVerifC09(t *testing.T) {
 		"de-duplicated by the per-DID sequences of stored documents; in every state the whole probe alphabet is offered to the real callback: creations of every DID " +
 		"with every one of 4 embedded keys and with every defective document, updates of every DID signed by every (kid DID, key) pair x prevs {latest, previous, first, unrelated} " +
 		"x signing time {now, one hour before everything}, and an authorised signer with every document variant (10 valid templates; 12 whole-document defects, one per validator rule, incl. a JWK whose kid member repeats a non-thumbprint fragment and a method without JWK; and for every entry kind - verificationMethod entry, method embedded in each relationship, service - the well-formed id and 12 malformed ids: DID of another known / an unknown DID, document DID + extra characters / path / query / param / colon segment, upper-cased id, empty fragment, fragment only, two '#', no fragment; embedded methods also with non-thumbprint fragments); " +
+		"document-shape alphabet (shape.go): {relationship} x {method embedded once / twice, before / after the references; absolute, relative, unlisted and other-DID references; additional verificationMethod entries before / after the template's} x {(id stands for key a, publicKeyJwk holds key b)} over key kinds {own listed key, fresh key, key of another DID, OKP key}, on a host that references its key from capabilityInvocation and on one whose only capability invocation entries are the embedded ones; " +
+		"building events also: re-creation (the DID published once more as a creation by the original key, also after its deactivation) and three well-formed embedded-method shapes for DID 0; update probes also with prevs that differ between the target and the other DIDs; " +
+		"after every accepted event every stored version must keep method id == thumbprint of the method's own key, and a deactivated DID must stay deactivated; " +
 		"a case = (history, offered event)")
 	r.Assume("signature verification of the DAG is not part of the callback: the harness signs with the key that the kid names, so the signature is valid whenever the kid resolves")
 	r.Assume("the model follows the node's accept decisions for building events (they are accepted by model and node alike, else the branch ends)")
@@ -1107,6 +1266,9 @@ func TestVerifC09(t *testing.T) {
 		ok, err, tx := in.offer(t, rc.Event, false)
 		var cnt counters
 		judge(r, in, rc.History, rc.Event, ok, err, &cnt)
+		if ok {
+			checkStored(t, r, in, &in.m, rc.History, rc.Event, tx)
+		}
 		r.Eval(histKey(rc.History) + " => " + rc.Event.String())
 		t.Logf("history: %s", histKey(rc.History))
 		t.Logf("event: %s\n  document: %s\n  transaction ref %s prevs %v\n  callback result: accepted=%v err=%v\n  resolvable state changed: %v",
@@ -1118,7 +1280,10 @@ func TestVerifC09(t *testing.T) {
 	if r.Thorough() {
 		maxDepth = 5
 		embedRels = []string{"capabilityInvocation", "assertionMethod", "authentication", "keyAgreement", "capabilityDelegation"}
+		shapeFull = true
+		mixedPrevs = append(mixedPrevs, "target-latest-others-oldest")
 	}
+	variantsCache = [nDIDs][]docSpec{}
 	// the labels the harness gives its documents agree with the reference predicate evaluated on the payload as sent
 	// (the only documented exception: a service id with two '#', which the predicate admits - see model.go)
 	for i := 0; i < nDIDs; i++ {
@@ -1131,6 +1296,18 @@ func TestVerifC09(t *testing.T) {
 		}
 	}
 	r.Bound("document_variants_per_did", len(docVariants(0)))
+	r.Bound("document_shape_variants_per_did", len(shapeVariants(0)))
+	// names identify documents (memoised facts): a name must not stand for two payloads
+	for i := 0; i < nDIDs; i++ {
+		byName := map[string]string{}
+		for _, d := range append(append([]docSpec{}, docVariants(i)...), buildingShapes(i)...) {
+			pl := string(buildPayload(d))
+			if prev, ok := byName[d.Name]; ok && prev != pl {
+				t.Fatalf("harness: document name %q of did%d stands for two different payloads", d.Name, i)
+			}
+			byName[d.Name] = pl
+		}
+	}
 	var cnt counters
 
 	// vacuity guards: an honest creation and an honest update are accepted, a foreign-key creation is not, and the
@@ -1157,49 +1334,42 @@ func TestVerifC09(t *testing.T) {
 		in.close()
 	}
 
-	// Levels 0..split are enumerated by every worker (cheap and deterministic, so all workers see the same lists);
-	// the states of these levels are probed by their owner only (index modulo workers), and from level `split`
-	// downwards a worker keeps only the states it owns, so the subtrees are divided among the workers
-	// (de-duplication is per worker below that level).
+	// Every worker enumerates the whole state graph (expansion only: building events on restored snapshots, cheap and
+	// deterministic, so all workers see the same lists and de-duplicate globally); a state is PROBED by its owner only
+	// (running index modulo workers), which divides the probe work evenly.
 	seen := map[string]bool{}
 	{
 		in := build(t, nil)
 		seen[in.canon(t)] = true
 		in.close()
 	}
-	const split = 2
-	level := []node{{}}
 	idx := 0
-	for depth := 0; depth <= maxDepth && len(level) > 0; depth++ {
-		if depth == split {
-			var own []node
-			for i, n := range level {
-				if r.Mine(i) {
-					own = append(own, n)
+	search := func(label string, roots []node, levels int) {
+		level := roots
+		for depth := 0; depth <= levels && len(level) > 0; depth++ {
+			var next []node
+			for _, n := range level {
+				idx++
+				if r.Expired() {
+					break
+				}
+				succ, canons := explore(t, r, n, &cnt, r.Mine(idx), depth < levels)
+				for i, s := range succ {
+					if !seen[canons[i]] {
+						seen[canons[i]] = true
+						next = append(next, s)
+					}
 				}
 			}
-			level = own
-		}
-		var next []node
-		for _, n := range level {
-			idx++
-			if r.Expired() {
-				break
+			if label != "" {
+				r.Bound(fmt.Sprintf("%s_level_%d_states", label, depth), len(level))
 			}
-			owner := depth >= split || r.Mine(idx)
-			succ, canons := explore(t, r, n, &cnt, owner, depth < maxDepth)
-			for i, s := range succ {
-				if !seen[canons[i]] {
-					seen[canons[i]] = true
-					next = append(next, s)
-				}
-			}
+			level = next
 		}
-		r.AddExtra(fmt.Sprintf("level_%d_states_of_this_worker", depth), int64(len(level)))
-		level = next
 	}
-	// structured start states: controller chains built directly (the BFS from the empty state reaches a chain of three
-	// with a deactivated tail only at depth 6-7). Each start state is probed and expanded by `extra` more levels.
+	search("bfs", []node{{}}, maxDepth)
+	// structured start states: controller chains and re-creations built directly (the BFS from the empty state reaches a
+	// chain of three with a deactivated tail only at depth 6-7). Each start state is probed and expanded by `extra` more levels.
 	extra := 1
 	if r.Thorough() {
 		extra = 2
@@ -1207,28 +1377,8 @@ func TestVerifC09(t *testing.T) {
 	starts := startStates(t)
 	r.Bound("structured_start_states", len(starts))
 	r.Bound("levels_below_start_states", extra)
-	for si, st := range starts {
-		if !r.Mine(si) || r.Expired() {
-			continue
-		}
-		local := map[string]bool{}
-		lvl := []node{st}
-		for depth := 0; depth <= extra && len(lvl) > 0; depth++ {
-			var next []node
-			for _, n := range lvl {
-				if r.Expired() {
-					break
-				}
-				succ, canons := explore(t, r, n, &cnt, true, depth < extra)
-				for i, s := range succ {
-					if !local[canons[i]] {
-						local[canons[i]] = true
-						next = append(next, s)
-					}
-				}
-			}
-			lvl = next
-		}
+	for _, st := range starts {
+		search("", []node{st}, extra)
 	}
 	r.Bound("depth_of_building_history", maxDepth)
 	r.Bound("dids", nDIDs)
